@@ -200,6 +200,11 @@ pub fn c01_key(f: &Finding, p: &Program, _o: &Outcome) -> Option<String> {
                 if top[i + 1..].iter().any(|s| matches!(s, Step::Aggregate(a) if a.iter().all(|(_, g, _)| matches!(g, Agg::CountThis | Agg::Count)))) {
                     return Some("aggregate-of-aggregate-loses-inner-aggregation".into());
                 }
+                // the same defect seen through its SQL: an ungrouped aggregate none of whose results is read
+                // later is written as `SELECT NULL FROM …` — one row per input row instead of one row
+                if top[i + 1..].iter().any(|s| matches!(s, Step::Aggregate(_))) && f.sql.contains("(SELECT NULL FROM ") {
+                    return Some("aggregate-of-aggregate-loses-inner-aggregation".into());
+                }
             }
             if has_append {
                 return Some("append-branches-projected-differently".into());
